@@ -950,6 +950,7 @@ def _mask(sig, num_args, hide_args, hide_kwargs,
         = sort_params(sig, sources=True, _stacklevel=_stacklevel + 1)
 
     pokargs_by_name = dict((p.name, p) for p in pokargs)
+    posarg_names = set(p.name for p in posargs)
     consumed_names = set()
 
     if num_args:
@@ -970,7 +971,10 @@ def _mask(sig, num_args, hide_args, hide_kwargs,
     partial_mode = partial_obj is not None
 
     for kwarg_name in named_args:
-        if kwarg_name in consumed_names:
+        if kwarg_name in consumed_names and not (
+                kwarg_name in posarg_names and varkwargs):
+            # (a keyword named like a positional-only parameter does not
+            # reach it: it goes to **kwargs)
             raise ValueError('Duplicate argument: {0!r}'.format(kwarg_name))
         elif kwarg_name in pokargs_by_name:
             i = pokargs.index(pokargs_by_name[kwarg_name])
@@ -1000,7 +1004,9 @@ def _mask(sig, num_args, hide_args, hide_kwargs,
             raise ValueError(
                 'Named parameter {0!r} not found in signature: {1}'
                 .format(kwarg_name, sig))
-        elif partial_mode and kwarg_name not in sig.parameters:
+        elif partial_mode and not any(
+                p.name == kwarg_name
+                for p in posargs + [varargs, varkwargs] if p):
             kwoargs[kwarg_name] = UpgradedParameter(
                 kwarg_name, _util.funcsigs.Parameter.KEYWORD_ONLY,
                 default=named_args[kwarg_name])
